@@ -380,6 +380,54 @@ def success_reachable(body, removed, success='ok', starts=(0,), ret_filter=None)
     return sorted(set(hits))
 
 
+def _flows_via_adapters(body, operand, target_local, depth=8):
+    """operand is target_local, possibly through whole moves and polarity-preserving result adapters (x.map_err(..), x.with_context(..))"""
+    o = operand
+    for _ in range(depth):
+        if o[0] not in ('copy', 'move') or o[1][1]:
+            return False
+        l = o[1][0]
+        if l == target_local:
+            return True
+        ds = body.defs(l)
+        if len(ds) != 1:
+            return False
+        bi, si, pl, rv = ds[0]
+        if si == 't':
+            if isinstance(rv, tuple):
+                return False
+            if adapter_polarity(rv) == 1 and rv.args:
+                o = rv.args[0]
+                continue
+            return False
+        if rv[0] == 'use':
+            o = rv[1]
+            continue
+        return False
+    return False
+
+
+def gating_edges(body, dest_local, want=+1, success='ok'):
+    """Edges that witness "the checked value in dest_local had the wanted outcome": the arms of the branches on it, plus - when
+    the value is RETURNED as the function's own result (tail expression, possibly through `map_err` / `with_context`) - the
+    edges on which it becomes the return value: its success then IS the function's success."""
+    tr = track_result(body, dest_local, want)
+    edges = set(tr.success_edges)
+    if tr.returned and want == +1:
+        succ, _ = return_assigns(body, success)
+        carriers = body.ret_carriers()
+        for sp in succ:
+            if sp['kind'] == 'edge':
+                c2 = sp['call']
+                if c2.dest[0] == dest_local or (c2.args and _flows_via_adapters(body, c2.args[0], dest_local)):
+                    edges.add((sp['bb'], sp['to']))
+        # the call defining dest_local itself assigns a carrier
+        for b in body.blocks:
+            if b.term[0] == 'call' and b.term[1].dest[0] == dest_local and dest_local in carriers and b.term[1].target is not None:
+                edges.add((b.term[1].bb, b.term[1].target))
+    return edges, tr
+
+
 # ---------------------------------------------------------------- R1 must-pass-through
 
 class Sink:
@@ -634,13 +682,32 @@ def loop_body_entry(body, bb):
 
 # ---------------------------------------------------------------- R3 who-may
 
+def _allowed_root(ws, f, allow, depth=3, _seen=None):
+    """Is the function (by its root) covered by the allow-list - directly, or as an internal (non-exported) helper all of whose
+    callers are (transitively) covered?  A private helper extracted out of an allowed function is part of that function."""
+    root = f.root()
+    if any(glob_match(p, root.name) or glob_match(p, f.name) for p, _ in allow):
+        return True
+    if depth == 0 or root.reach or root.kind not in ('fn', 'assoc_fn'):
+        return False
+    _seen = (_seen or set()) | {id(root)}
+    callers = [c for c, _l in ws.callers_of(root.name) if c.unit.tag in ('lib', 'bin')]
+    if not callers:
+        return False
+    for c in callers:
+        if id(c.root()) in _seen:
+            continue
+        if not _allowed_root(ws, c, allow, depth - 1, _seen):
+            return False
+    return True
+
+
 def who_calls(ws, callee_pats, allow):
     """Callers of the definition(s) not covered by the allow-list.
     allow: [(glob over caller root name, reason)].  Returns (allowed_sites, offenders)."""
     allowed, offenders = [], []
     for f, line in ws.callers_of(callee_pats):
-        root = f.root().name
-        if any(glob_match(p, root) or glob_match(p, f.name) for p, _ in allow):
+        if _allowed_root(ws, f, allow):
             allowed.append((f, line))
         else:
             offenders.append((f, line))
@@ -650,8 +717,7 @@ def who_calls(ws, callee_pats, allow):
 def who_constructs(ws, adt_pat, allow, variant=None):
     allowed, offenders = [], []
     for f in ws.constructors_of(adt_pat, variant):
-        root = f.root().name
-        if any(glob_match(p, root) or glob_match(p, f.name) for p, _ in allow):
+        if _allowed_root(ws, f, allow):
             allowed.append(f)
         else:
             offenders.append(f)
